@@ -31,6 +31,10 @@ CAND = {
  "meta": ["B2.meta"],
  "feeata": ["U1.M1"],
  "feesdest": ["U2.M1"],
+ "ssettings": ["G2.staked"],                # another group's staked settings
+ "sbank": ["B1", "XS1"],                    # a non-staked bank of the group; a staked bank of another group
+ "lstmint": ["LST2", "M1"], "solpool": ["SP2.stake", "SP3"], "stakepool": ["SP2", "stranger"],
+ "rec3": ["A2.rec"],
  "signer": [], "free": [], "payer": [], "new": [],
 }
 
@@ -89,6 +93,22 @@ OPS = {
  "add_bank": dict(role="admin", base={"op":"add_bank","group":"G1","bank":"NB","mint":"M1","cfg":{}},
                    slots=S(("marginfi_group","free"),("admin","signer"),("fee_payer","payer"),("fee_state","feestate"),("global_fee_wallet","feewallet"),("bank_mint","free"),("bank","new"),
                            ("liquidity_vault_authority","free"),("liquidity_vault","free"),("insurance_vault_authority","free"),("insurance_vault","free"),("fee_vault_authority","free"),("fee_vault","free"),("token_program","tprog"),("system_program","sprog"))),
+ # ---- staked collateral: group settings (admin), their propagation and bank creation (anyone)
+ "init_staked_settings": dict(role="admin", grp="G3", base={"op":"init_staked_settings","group":"G3","oracle":"O1"},
+                   slots=S(("marginfi_group","free"),("admin","signer"),("fee_payer","payer"),("staked_settings","new"),("system_program","sprog"))),
+ "edit_staked_settings": dict(role="admin", base={"op":"edit_staked_settings","group":"G1","max_age":77},
+                   slots=S(("marginfi_group","group"),("admin","signer"),("staked_settings","ssettings"))),
+ "propagate_staked": dict(role="anyone", base={"op":"propagate_staked","bank":"SB1"},
+                   slots=S(("marginfi_group","group"),("staked_settings","ssettings"),("bank","sbank"))),
+ "add_bank_staked": dict(role="anyone", base={"op":"add_bank_staked","group":"G1","bank":"SB3","pool":"SP3","seed":0},
+                   slots=S(("marginfi_group","group"),("staked_settings","ssettings"),("fee_payer","signer"),("bank_mint","lstmint"),("sol_pool","solpool"),("stake_pool","stakepool"),("bank","new"),
+                           ("liquidity_vault_authority","free"),("liquidity_vault","free"),("insurance_vault_authority","free"),("insurance_vault","free"),("fee_vault_authority","free"),("fee_vault","free"),("token_program","tprog"),("system_program","sprog"))),
+ # ---- permissionless housekeeping
+ "init_liq_record": dict(role="anyone", base={"op":"init_liq_record","acct":"A5"},
+                   slots=S(("marginfi_account","free"),("fee_payer","signer"),("liquidation_record","new"),("system_program","sprog"))),
+ "settle_emissions": dict(role="anyone", base={"op":"settle_emissions","acct":"A1","bank":"B1"}, slots=S(("marginfi_account","acct_g"),("bank","bank_g"))),
+ "accrue": dict(role="anyone", base={"op":"accrue","bank":"B1"}, slots=S(("group","group"),("bank","bank_g"))),
+ "propagate_fee": dict(role="anyone", base={"op":"propagate_fee","group":"G1"}, slots=S(("fee_state","feestate"),("marginfi_group","free"))),
 }
 
 # multi-instruction cells (brackets): the cell's modifiers apply to instruction `k` of the transaction
@@ -103,6 +123,10 @@ TXS = {
                   slots=S(("marginfi_account","free"),("liquidation_record","rec"),("liquidation_receiver","signer"),("fee_state","feestate"),("global_fee_wallet","feewallet"),("system_program","sprog"))),
  "recv_withdraw": dict(role="anyone", k=1, base=[{"op":"start_liq","acct":"A3","receiver":"liquidator"},{"op":"withdraw","acct":"A3","bank":"B2","amount":1,"signer":"liquidator"},{"op":"repay","acct":"A3","bank":"B1","amount":100,"signer":"liquidator"},{"op":"end_liq","acct":"A3","receiver":"liquidator"}],
                   slots=S(("group","group"),("marginfi_account","acct_g"),("authority","signer"),("bank","bank2"),("destination_token_account","free"),("bank_liquidity_vault_authority","aliq2"),("liquidity_vault","vliq2"),("token_program","tprog"))),
+ "start_delev": dict(role="risk_admin", k=0, base=[{"op":"start_delev","acct":"A3"},{"op":"end_delev","acct":"A3"}],
+                  slots=S(("marginfi_account","free"),("liquidation_record","rec3"),("group","group"),("risk_admin","signer"),("instruction_sysvar","sysixs"))),
+ "end_delev": dict(role="risk_admin", k=1, base=[{"op":"start_delev","acct":"A3"},{"op":"end_delev","acct":"A3"}],
+                  slots=S(("marginfi_account","free"),("liquidation_record","rec3"),("group","group"),("risk_admin","signer"))),
  "panic_unpause": dict(role="fee_admin", k=1, base=[{"op":"panic_pause"},{"op":"panic_unpause"}], slots=S(("global_fee_admin","signer"),("fee_state","feestate"))),
 }
 
@@ -125,15 +149,15 @@ def main():
     out.append("AuthIdentities == " + tla(IDENTITIES))
     ops = {}
     for name, o in OPS.items():
-        ops[name] = dict(role=o["role"], also=o.get("also", []), k=0, base=[o["base"]], slots=[[s["name"], s["kind"]] for s in o["slots"]])
+        ops[name] = dict(role=o["role"], also=o.get("also", []), k=0, base=[o["base"]], slots=[[s["name"], s["kind"]] for s in o["slots"]], grp=o.get("grp", "G1"))
     for name, o in TXS.items():
-        ops[name] = dict(role=o["role"], also=o.get("also", []), k=o["k"], base=o["base"], slots=[[s["name"], s["kind"]] for s in o["slots"]])
+        ops[name] = dict(role=o["role"], also=o.get("also", []), k=o["k"], base=o["base"], slots=[[s["name"], s["kind"]] for s in o["slots"]], grp=o.get("grp", "G1"))
     out.append("AuthOpNames == {" + ", ".join(json.dumps(n) for n in ops) + "}")
     # base actions contain heterogeneous records: emit as JSON strings to be embedded in edges verbatim
     out.append("AuthOps == [n \\in AuthOpNames |->")
     cases = []
     for n, o in ops.items():
-        cases.append(f"  n = {json.dumps(n)} -> [role |-> {tla(o['role'])}, also |-> {tla(o['also'])}, k |-> {o['k']}, nix |-> {len(o['base'])}, slots |-> {tla(o['slots'])}]")
+        cases.append(f"  n = {json.dumps(n)} -> [role |-> {tla(o['role'])}, also |-> {tla(o['also'])}, k |-> {o['k']}, nix |-> {len(o['base'])}, grp |-> {tla(o['grp'])}, slots |-> {tla(o['slots'])}]")
     out.append("  CASE " + "\n    [] ".join(cases) + "]")
     out.append("=============================================================================")
     open(os.path.join(ROOT, "spec", "AuthTable.tla"), "w").write("\n".join(out) + "\n")
